@@ -444,7 +444,8 @@ def check_comparator_orientation(ctx, prog, tag, crates=("minijinja", "minijinja
                                  rule="C07.V17.comparison-keeps-the-orientation-of-its-operands"):
     """V17 (round 12, seed C07-12): an order is antisymmetric only if a comparator that hands its two operands to an
     inner comparison either hands them in their own order and returns the verdict as it is, or hands them swapped (a
-    mixed-type helper takes the float / the signed operand first) and returns the verdict *reversed*.  In every
+    mixed-type helper takes the float / the signed operand first) and returns the verdict *reversed* - or the other way
+    round throughout (a descending comparator); the arms of one comparator must agree on the direction.  In every
     function that takes two operands and returns an `Ordering`, each inner comparison whose two arguments are computed
     from one operand each is classified (straight / swapped) and the number of `Ordering::reverse` between it and the
     function's result must match; an inner comparison both of whose arguments can come from either operand (one match
@@ -456,6 +457,7 @@ def check_comparator_orientation(ctx, prog, tag, crates=("minijinja", "minijinja
             continue
         if "Ordering" not in f.locals[0].get("s", "") or "Option" in f.locals[0].get("s", ""):
             continue
+        judged = []
         for c in f.calls():
             last = c.name.split("::")[-1]
             g = prog.fns.get(c.resolved or c.path)
@@ -473,13 +475,7 @@ def check_comparator_orientation(ctx, prog, tag, crates=("minijinja", "minijinja
                     continue        # inspected on the way, or reversed under a direction flag (`if reverse { o.reverse() }`)
                 n += 1
                 swapped = min(d0) > min(d1)
-                want = 1 if swapped else 0
-                ctx.ob(rule, inst + ("|swapped" if swapped else "|straight"), par == {want},
-                       "%s hands its operands to %s %s and returns the verdict %s: the order it defines is not "
-                       "antisymmetric (both `a < b` and `b < a` hold for some pair), sort results depend on the input order "
-                       "and min / max return members that do not bound the others"
-                       % (f.path.split("::")[-1], last, "swapped" if swapped else "in their own order",
-                          "reversed" if 1 in par else "as it is"), f.where(c.bb))
+                judged.append((c, last, inst, swapped, 1 in par))
             elif len(d0) == 2 and d0 == d1:
                 if _reverse_parities(f, c) is None:
                     continue
@@ -488,6 +484,20 @@ def check_comparator_orientation(ctx, prog, tag, crates=("minijinja", "minijinja
                        "both arguments of the %s in %s can come from either operand (an arm bound for both orientations): one of "
                        "the two orientations gets the verdict of the other, so the order is not antisymmetric"
                        % (last, f.path.split("::")[-1]), f.where(c.bb))
+        # the direction a comparison contributes: ascending when it is straight and unreversed or swapped and reversed.
+        # A comparator may be descending as a whole (`b.cmp(a)` everywhere); what breaks antisymmetry is arms that disagree
+        asc = [j for j in judged if j[3] == j[4]]
+        desc = [j for j in judged if j[3] != j[4]]
+        odd = desc if len(desc) <= len(asc) else asc
+        if not asc or not desc:
+            odd = []
+        for (c, last, inst, swapped, rev) in judged:
+            ctx.ob(rule, inst + ("|swapped" if swapped else "|straight"), (c, last, inst, swapped, rev) not in odd,
+                   "%s hands its operands to %s %s and returns the verdict %s, against the direction of its other %d comparisons: "
+                   "the order it defines is not antisymmetric (both `a < b` and `b < a` hold for some pair), sort results depend "
+                   "on the input order and min / max return members that do not bound the others"
+                   % (f.path.split("::")[-1], last, "swapped" if swapped else "in their own order",
+                      "reversed" if rev else "as it is", len(judged) - len(odd)), f.where(c.bb))
     return n
 
 
